@@ -343,7 +343,7 @@ func (u *Unparser) exprBare(n *Node) {
 			u.emit(":", "")
 			u.expr(n.L[i+1], pAssign)
 		}
-		u.emit("}", "")
+		u.emit("}", "obj}")
 	case Fn:
 		u.emit("function", "")
 		if n.Op != "" {
@@ -351,6 +351,7 @@ func (u *Unparser) exprBare(n *Node) {
 		}
 		u.params(n.P)
 		u.body(n.L, CtxFunc)
+		u.Toks[len(u.Toks)-1].Role = "fnexpr}"
 	case Grp:
 		u.emit("(", "prefix(")
 		u.expr(n.A, 0)
@@ -420,7 +421,7 @@ func (u *Unparser) Stmt(n *Node) {
 		u.emit("if", "")
 		u.emit("(", "")
 		u.expr(n.A, 0)
-		u.emit(")", "")
+		u.emit(")", "header)")
 		u.Stmt(n.B)
 		if n.C != nil {
 			u.emit("else", "")
@@ -430,7 +431,7 @@ func (u *Unparser) Stmt(n *Node) {
 		u.emit("while", "")
 		u.emit("(", "")
 		u.expr(n.A, 0)
-		u.emit(")", "")
+		u.emit(")", "header)")
 		u.Stmt(n.B)
 	case SFor:
 		u.emit("for", "")
@@ -446,7 +447,7 @@ func (u *Unparser) Stmt(n *Node) {
 		if n.C != nil {
 			u.expr(n.C, 0)
 		}
-		u.emit(")", "")
+		u.emit(")", "header)")
 		u.Stmt(n.D)
 	case SBlock:
 		u.emit("{", "block{")
@@ -699,4 +700,23 @@ func cloneNode(n *Node) *Node {
 		}
 	}
 	return &m
+}
+
+// EndsExpression reports whether a token can be the last token of an expression (so that a following
+// ( or [ would continue it in standard JavaScript).
+func EndsExpression(t Tok) bool {
+	switch t.Role {
+	case "header)", "block}", "body}", "prefixop", "semi", "binop", "asgop", "block{", "body{", "obj{":
+		return false
+	case "postfix", "fnexpr}", "obj}", "group)":
+		return true
+	}
+	switch t.Text {
+	case ")", "]":
+		return true
+	case "let", "function", "return", "if", "else", "while", "for", "(", "[", "{", "}", ",", ";", ":", ".", "=":
+		return false
+	}
+	c := t.Text[0]
+	return c >= 'a' && c <= 'z' || c >= 'A' && c <= 'Z' || c >= '0' && c <= '9' || c == '\'' || c == '"' || c == '`' || c == '_' || c == '$'
 }
